@@ -83,13 +83,36 @@ def describe (st : St) (qs : List Nat) : String :=
   -- T11: the model's cursor walk
   let curs := qs.map fun p => (p, c.fillArgsAtP p c.getEmptyArgsAll)
   let t11 := "cu:" ++ joinOr "+" (curs.map fun (p, a) => showCursor p a)
-  -- T12
+  -- by-variable accessors and range iteration, by direct scans
+  let showBV : Option (Option PRel) → String := fun x =>
+    match x with
+    | none => "E"
+    | some y => optRel y
+  let tbv := "bv:" ++ joinOr "+" ((List.range L).filterMap fun q =>
+    (slotAt s q).map fun op =>
+      let es := (List.range nv).map fun v =>
+        if op.vars.contains v then s!"{showBV (some (prevRel s v q))}:{showBV (some (nextRel s v q))}"
+        else "E:E"
+      s!"{q}/{joinOr "," es}")
+  let ra := qs.foldl min (qs.headD 0)
+  let rb := if qs.isEmpty then L else qs.foldl max 0
+  let l1 := ((List.range L).filter fun p => occAt s p && decide (ra ≤ p) && decide (p ≤ rb)).map toString
+  let l2 := (List.range' ra (min rb L - ra)).map fun p => occAt s p
+  let tit := s!"it:{ra}.{rb}/{joinOr "," l1}/{showBits l2}"
+  -- T14
   let okCanon := decide (c = canon nv nb c.abs)
   let okAbs := decide (c.abs = s)
   let okCur := curs.all fun (p, a) => decide (a = cursorByScan nv s p a.unfilled)
-  let t12 := if okCanon && okAbs && okCur then "inv1"
-    else s!"inv0[canon={okCanon},abs={okAbs},cursor={okCur}]"
-  String.intercalate " " [t1, t2, t3, t4, t5, t6, t7, t8, t9, t10, t11, t12]
+  let okBV := (List.range L).all fun q =>
+    match c.getNode q with
+    | none => true
+    | some nd => (List.range nv).all fun v =>
+        let want (x : Option PRel) : Option (Option PRel) := if nd.op.vars.contains v then some x else none
+        decide (FastOps.getPreviousPForVar v nd = want (prevRel s v q)) &&
+        decide (FastOps.getNextPForVar v nd = want (nextRel s v q))
+  let t12 := if okCanon && okAbs && okCur && okBV then "inv1"
+    else s!"inv0[canon={okCanon},abs={okAbs},cursor={okCur},byvar={okBV}]"
+  String.intercalate " " [t1, t2, t3, t4, t5, t6, t7, t8, t9, t10, t11, tbv, tit, t12]
 
 def occupiedList (s : Slots) : List (Nat × Op) :=
   s.zipIdx.filterMap fun (o, p) => o.map fun op => (p, op)
@@ -101,6 +124,16 @@ def subOpsA (s : Slots) (vars : List Nat) (ps pe : Nat) (acts : List (Option (Op
     match slotAt s p with
     | some op => if op.vars.any (vars.contains ·) then writeA s p (acts.getD (p - ps) none) else s
     | none => s) s
+
+/-- the cursor handed to `mutate_subsection*(…, Some(args))`:
+`vars` = `*` (SubvarAccess::All) or a variable list (Varlist); `hints` = `N` (get_empty_args +
+fill_args_at_p, the MODEL'S WALK), `A` (additionally through SubvarAccess::Args), or a hint list
+(fill_args_at_p_with_hint, scan specification). -/
+def subCursor (c : FastOps) (varsT hints : String) (ps : Nat) : Cursor :=
+  let empty := if varsT == "*" then c.getEmptyArgsAll else c.getEmptyArgsVarlist (parseNats varsT)
+  if hints == "N" then c.fillArgsAtP ps empty
+  else if hints == "A" then c.fillArgsAtP ps (c.getEmptyArgsFromArgs empty)
+  else c.fillArgsWithHintSpec ps empty (parseNats varsT)
 
 def stepSt (st : St) (toks : List String) : St :=
   let nv := st.c.varEnds.length
@@ -131,23 +164,35 @@ def stepSt (st : St) (toks : List String) : St :=
     let ps := parseNat ps
     let m : Mut Nat := .sweepOps ps (parseNat pe) (fun _ _ p t => (acts.getD (p - ps) none, t)) 0
     { c := applyC st.c m, s := applyA nv nb st.s m }
-  | ["subps", _, vars, _hints, ps, pe, acts, _] =>
+  | ["subps", _, varsT, hints, ps, pe, acts, _] =>
     let acts := parseActs acts
-    let vars := parseNats vars
     let ps := parseNat ps
     let pe := parseNat pe
-    let a := st.c.fillArgsWithHintSpec ps (st.c.getEmptyArgsVarlist vars) vars
-    let c := (st.c.mutateSubsection ps pe (0 : Nat) (fun _ _ i => (acts.getD i none, i + 1)) (some a)).1
-    let m : Mut Nat := .sweep ps pe (fun _ _ i => (acts.getD i none, i + 1)) 0
+    let f : FastOps → Option Op → Nat → Option (Option Op) × Nat := fun _ _ i => (acts.getD i none, i + 1)
+    if hints == "N" || hints == "A" then
+      -- the public non-hint sequence = constructor `sweepArgs` of the mutation language (refine_step)
+      let src : ArgSrc := if varsT == "*" then .all else .varlist (parseNats varsT)
+      let m : Mut Nat := .sweepArgs src (hints == "A") ps pe f 0
+      { c := applyC st.c m, s := applyA nv nb st.s m }
+    else
+    let a := subCursor st.c varsT hints ps
+    let c := (st.c.mutateSubsection ps pe (0 : Nat) f (some a)).1
+    let m : Mut Nat := .sweep ps pe f 0
     { c := c, s := applyA nv nb st.s m }
-  | ["subops", _, vars, _hints, ps, pe, acts, _] =>
+  | ["subops", _, varsT, hints, ps, pe, acts, _] =>
     let acts := parseActs acts
-    let vars := parseNats vars
     let ps := parseNat ps
     let pe := parseNat pe
-    let a := st.c.fillArgsWithHintSpec ps (st.c.getEmptyArgsVarlist vars) vars
-    let c := (st.c.mutateSubsectionOps ps pe (0 : Nat) (fun _ _ p t => (acts.getD (p - ps) none, t)) (some a)).1
-    { c := c, s := subOpsA st.s vars ps pe acts }
+    let f : FastOps → Op → Nat → Nat → Option (Option Op) × Nat := fun _ _ p t => (acts.getD (p - ps) none, t)
+    if varsT == "*" then
+      let m : Mut Nat := .sweepOpsArgsAll (hints == "A") ps pe f 0
+      { c := applyC st.c m, s := applyA nv nb st.s m }
+    else
+    let a := subCursor st.c varsT hints ps
+    let c := (st.c.mutateSubsectionOps ps pe (0 : Nat) f (some a)).1
+    let sA := if varsT == "*" then applyA nv nb st.s (.sweepOps ps pe f 0 : Mut Nat)
+      else subOpsA st.s (parseNats varsT) ps pe acts
+    { c := c, s := sA }
   | _ => st
 
 partial def loop (h : IO.FS.Stream) (st : St) : IO Unit := do
